@@ -19,7 +19,8 @@ func TestMain(m *testing.M) { vlib.Main(m) }
 var ev = vlib.NewEvidence("C17",
 	"direct cases: BM25 scorer called with stub statistics (freq 1..1e6, field length 1..2^31 through ComputeNorm, docFreq 1..N, N 1..1e9, boost 1e-30..1e6, default and custom k1/b), each case measures the freq, length, docFreq and boost laws against the exact formula and re-evaluates every explanation node; non-trivial = at least one of the freq/length/docFreq pairs differs by exactly one unit. "+
 		"corpus cases: generated in-memory corpora (1-3 segments, merging off) searched with TermQuery per term with/without boost and ExplainScores; non-trivial = a unit-step pair was measured for each of tf, field length and docFreq. "+
-		"explain cases: generated corpora x generated query trees (term, match, match-phrase, multi-phrase, prefix, wildcard, regexp, fuzzy, term range, numeric range, date range, match-all, boolean nests to depth 3 with boosts); non-trivial = an explanation whose deepest term-score node is at level >= 3 and that has >= 2 term-score nodes")
+		"explain cases: generated corpora x generated query trees (term, match, match-phrase, multi-phrase, prefix, wildcard, regexp, fuzzy, term range, numeric range, date range, match-all, boolean nests to depth 3 with boosts); non-trivial = an explanation whose deepest term-score node is at level >= 3 and that has >= 2 term-score nodes. "+
+		"deletion cases: a generated corpus, then one batch deleting a generated subset (merging off), TermQuery per term with/without ExplainScores; judged without fixing how deleted documents are counted: finite positive scores, explanation derives the score, n <= N, live <= N <= ever written, live <= n <= ever written, avgdl between the shortest and longest field, dl/freq leaves exact, idf ordered by the reported n; non-trivial = a hit was judged where live and ever-written counts differ for both N and n and >= 1 term pair was compared")
 
 var replayFns = map[string]vlib.ReplayFn{
 	"direct": func(raw json.RawMessage) *vlib.Failure {
@@ -38,6 +39,14 @@ var replayFns = map[string]vlib.ReplayFn{
 		var st corpusStats
 		return propCorpus(c, &st)
 	},
+	"deletions": func(raw json.RawMessage) *vlib.Failure {
+		var c DelCase
+		if f := vlib.Decode(raw, &c); f != nil {
+			return f
+		}
+		var st delStats
+		return propDeletions(c, &st)
+	},
 	"explain": func(raw json.RawMessage) *vlib.Failure {
 		var c ExplainCase
 		if f := vlib.Decode(raw, &c); f != nil {
@@ -49,7 +58,7 @@ var replayFns = map[string]vlib.ReplayFn{
 }
 
 func init() {
-	ev.Assume("corpora have no deletions and merging is switched off (MergePlanOptions.MaxSegmentSize=1, MinSegmentsForInMemoryMerge=1<<30): the N and avgdl leaves are compared with the live documents of the corpus, and ice rewrites the length sum when it merges (DESIGN finding #10)")
+	ev.Assume("corpora of the corpus and explain generators have no deletions (the deletion generator judges only what holds for either way of counting deleted documents) and merging is switched off (MergePlanOptions.MaxSegmentSize=1, MinSegmentsForInMemoryMerge=1<<30): the N and avgdl leaves are compared with the live documents of the corpus, and ice rewrites the length sum when it merges (DESIGN finding #10)")
 	ev.Assume("the field-length law is stated on the length the scorer decodes from the norm: ComputeNorm stores the length as float32 bits, lengths 0x7F800001..0x7FBFFFFF are signalling-NaN patterns that the float32->float64->float32 round trip quiets (length | 0x400000); pairs decoding to the same length are only required to score equally")
 	ev.Assume("law comparisons: inversion beyond 32 ulp of the term weight boost*idf is a violation; strict order demanded when the exact values differ by more than 8 ulp of the weight (rounding analysis of weight - weight/(1+freq*x) bounds the error of one score by 3.5 ulp)")
 	ev.Assume("query trees containing a fuzzy leaf with a candidate term at edit distance >= the shorter term's length are counted, not judged (known finding fuzzy-nonpositive-term-boost)")
